@@ -222,6 +222,10 @@ namespace bloch::cli {
                     }
                 } else if (arg.rfind(kFlagEchoPrefix, 0) == 0) {
                     echoOpt = arg.substr(kFlagEchoPrefix.size());
+                    if (echoOpt != "all" && echoOpt != "none" && echoOpt != "auto") {
+                        std::cerr << "--echo must be one of all, none, auto\n";
+                        return 1;
+                    }
                 } else {
                     file = arg;
                 }
